@@ -318,6 +318,16 @@ def record_steps(em, seed, P, per_class=False):
         valid.append(shapes_ok(mach, shp))
         vals.append(o.marg_D(np.asarray(mach.D, dtype=float), U, V, yy, xx) if valid[-1] else float("nan"))
     out.append(rank_trace("jfa-D", vals, valid))
+    if seed % 4 == 0:
+        # a long D phase: on small training sets exact EM shrinks D geometrically (its entries pass through the
+        # subnormal range on their way to zero); every one of several hundred E/M pairs still ascends
+        vals, valid = [vals[-1]], []
+        for _ in range(420):
+            mach.m_step_d(esteps(mach.e_step_d, latent_x=lx, latent_y=ly, n_acc=n_acc, f_acc=f_acc))
+            valid.append(shapes_ok(mach, shp))
+            vals.append(o.marg_D(np.asarray(mach.D, dtype=float), U, V, yy, xx) if valid[-1] else float("nan"))
+        out.append(rank_trace("jfa-D-long", vals, valid))
+        meta["long_D_phase"] = {"iterations": 420, "smallest_|D|": float(np.min(np.abs(np.asarray(mach.D, dtype=float))))}
     return out, meta
 
 
